@@ -219,12 +219,12 @@ class EvalAnalysis:
         """Affine form over t0=test[0], tl=test[-1], c=train[-1], s=train[0]; fh.min() = t0 - c (C01-R1)."""
         if is_const(t) and isinstance(cval(t), int) and not isinstance(cval(t), bool):
             return Lin.c(cval(t))
-        if isinstance(t, T) and t.op == "sub" and is_const(t.a[1]) and cval(t.a[1]) in (0, -1):
-            first = cval(t.a[1]) == 0
+        if isinstance(t, T) and t.op == "sub" and is_const(t.a[1]) and isinstance(cval(t.a[1]), int) and not isinstance(cval(t.a[1]), bool):
+            # a single split position; only [0] / [-1] have facts, any other element is a symbol of its own
             if t.a[0] == self.TEST:
-                return Lin.sym("test[0]" if first else "test[-1]")
+                return Lin.sym("test[%d]" % cval(t.a[1]))
             if t.a[0] == self.TRAIN:
-                return Lin.sym("train[0]" if first else "train[-1]")
+                return Lin.sym("train[%d]" % cval(t.a[1]))
         if isinstance(t, T) and t.op == "binop" and t.a[0] in ("Add", "Sub"):
             a, b = self.lin(t.a[1]), self.lin(t.a[2])
             if a is None or b is None:
@@ -468,6 +468,81 @@ def role_check(out, scen, rule, construct, label, expected, what, loc, wrong_hin
                 loc, vkey=label)
 
 
+def rel_pc_of(ev, A):
+    """Path condition of a top-level event of evaluate() without the conditions every normal return shares."""
+    rets = [e for e in A.events if e.kind == "return" and not e.stack]
+    ref = rets[-1].pc if rets else ()
+    n = 0
+    for a, b in zip(ev.pc, ref):
+        if a != b:
+            break
+        n += 1
+    return ev.pc[n:]
+
+
+_C01_CACHE = {}
+
+
+def splitter_contract(ctx, repo):
+    """C07 assumes of ``cv.split(y)`` exactly what C01 decides (window/test arithmetic, feasibility guards, cutoffs).  The C01
+    rules are run here and any failure is reported as a C07 obligation (no duplicated logic)."""
+    from .. import report as _report
+    from . import c01 as _c01
+    import ast as _ast
+    import hashlib
+    # C01's verdicts depend only on the sources its analysis can reach: the import closure (top-level and local imports) of the
+    # splitter module.  Results are memoised per content hash of that closure (the self-test analyses hundreds of overlays).
+    start = repo.module("sktime/forecasting/model_selection/_split.py")
+    seen, todo = {}, [start]
+    while todo:
+        m = todo.pop()
+        if m.name in seen:
+            continue
+        seen[m.name] = m
+        for node in _ast.walk(m.tree):
+            names = []
+            if isinstance(node, _ast.ImportFrom):
+                base_ = m._abs(node.level, node.module)
+                names = [base_] + [base_ + "." + a.name for a in node.names]
+            elif isinstance(node, _ast.Import):
+                names = [a.name for a in node.names]
+            for nm in names:
+                parts = nm.split(".")
+                for i in range(len(parts), 0, -1):
+                    mm = repo.modules.get(".".join(parts[:i]))
+                    if mm is not None:
+                        todo.append(mm)
+                        break
+    h = hashlib.sha1()
+    for nm in sorted(seen):
+        h.update(nm.encode())
+        h.update(seen[nm].src.encode())
+    key = h.hexdigest()
+    sub_ctx = _C01_CACHE.get(key)
+    if sub_ctx is None:
+        sub_ctx = _report.Ctx("C01", repo, ctx.tier)
+        try:
+            _c01.run(sub_ctx)
+        except AnalysisError as e:
+            ctx.undecided("R3", "splitter-contract", "C01 rules could not be evaluated: %s" % e, None)
+            return
+        _C01_CACHE[key] = sub_ctx
+    known = {"%s|%s" % (k_["rule"], k_["construct"]) for k_ in _report.load_known() if k_.get("property") == "C01" and k_.get("status", "known") == "known"}
+    n_ok = 0
+    for r_ in sub_ctx.results:
+        key = "%s|%s" % (r_["rule"], r_["construct"])
+        name = "splitter-contract:C01-%s:%s" % (r_["rule"], r_["construct"])
+        if r_["verdict"] == _report.VIOLATION and key not in known:
+            ctx.violation("R3", name, "evaluate() takes one row per (train, test) pair of cv.split(y) as that split's windows; the splitter breaks "
+                          "it: %s" % r_["detail"], r_["loc"])
+        elif r_["verdict"] == _report.UNDECIDED:
+            ctx.undecided("R3", name, r_["detail"], r_["loc"])
+        else:
+            n_ok += 1
+    ctx.ok("R3", "splitter-contract", "%d obligations of the splitters (C01 rules R1-R5: train/test arithmetic, feasibility, cutoffs) hold" % n_ok,
+           "sktime/forecasting/model_selection/_split.py")
+
+
 def option_args(out, scen, kind, sig, b, data_roles, loc):
     """Option arguments (update_params, return_pred_int, alpha, ...) of a forecaster call: an honest fold passes
     none or the documented default; another constant changes what is measured."""
@@ -573,6 +648,16 @@ def check_evaluate(ctx, repo, out, x_given, callsig):
                 out.check(scen, not bad_terms, "R2", "evaluate:%s(**)" % kind, "extra keyword arguments derive only from fit_params",
                           "extra keyword arguments of forecaster.%s do not derive from fit_params: %s" % (kind, ", ".join(bad_terms)),
                           L(ev), vkey="other")
+                # a conditional default: the caller's fit_params must be what is passed when they are given
+                for k_, v in extras:
+                    if k_ == "**" and isinstance(v, T) and v.op == "ifexp":
+                        atom = T("cmp", "Is", P("fit_params"), NONE)
+                        try:
+                            given = v.a[1] if ceval(v.a[0], {atom: False, P("fit_params"): "<given>"}) else v.a[2]
+                            out.check(scen, given == P("fit_params"), "R2", "evaluate:%s(**):given" % kind, "the caller's fit_params reach forecaster.%s" % kind,
+                                      "when fit_params are given, forecaster.%s receives **%s instead of them" % (kind, show(given)), L(ev), vkey="dropped")
+                        except Undef:
+                            out.add(scen, "undecided", "R2", "evaluate:%s(**):given" % kind, "default condition of fit_params not evaluable", L(ev))
             option_args(out, scen, kind, sig, b, ("y", "X", "fh"), L(ev))
     if not preds:
         out.add(scen, "undecided", "R2", "evaluate:predict", "no forecaster.predict call in the fold loop", loc0)
@@ -757,6 +842,27 @@ def check_evaluate(ctx, repo, out, x_given, callsig):
         out.check(scen, None if names is None else not (names & keep), "R3", "evaluate:postprocess:drop",
                   "only data columns are dropped", "result column(s) %s are dropped from the returned table"
                   % sorted((names or set()) & keep), L(ev), vkey="drop")
+    # the per-fold data columns are removed exactly when return_data is false
+    if drops:
+        try:
+            bad = None
+            for flag in (True, False):
+                val = {P("return_data"): flag}
+                n_ = sum(1 for e in drops if pc_holds(rel_pc_of(e, A), val))
+                if n_ != (0 if flag else 1) and bad is None:
+                    bad = (flag, n_)
+            out.check(scen, bad is None, "R3", "evaluate:postprocess:drop-guard", "data columns are dropped iff return_data is false",
+                      "with return_data=%r the data columns are dropped %d time(s)" % bad if bad else "", L(drops[0]), vkey="guard")
+        except Undef as u:
+            out.add(scen, "undecided", "R3", "evaluate:postprocess:drop-guard", "condition of the drop not evaluable: %s" % show(u.args[0] if u.args else "?"), L(drops[0]))
+    else:
+        keys = set()
+        for ev in appends:
+            if ev.args and isinstance(ev.args[0], T) and ev.args[0].op == "dict":
+                keys |= {cval(k_) for k_, _ in ev.args[0].a[0] if is_const(k_)}
+        data_cols = {"y_train", "y_test", "y_pred"} & keys
+        out.check(scen, not data_cols, "R3", "evaluate:postprocess:drop-guard", "no per-fold data columns are written",
+                  "the data columns %s are written for every fold but never removed when return_data is false" % sorted(data_cols), loc0, vkey="never")
 
     # ---------------- R4 strategy table and validators
     strategy_table(ctx, A, out, scen, fits, upds, loc0)
@@ -1079,7 +1185,8 @@ def run(ctx):
     check_scoring_validator(ctx, repo, callsig)
     check_cv_validator(ctx, repo)
     check_duration_coercion(ctx, repo)
+    splitter_contract(ctx, repo)
     ctx.floor("R1", 9)
     ctx.floor("R2", 12)
-    ctx.floor("R3", 11)
+    ctx.floor("R3", 13)
     ctx.floor("R4", 9)
